@@ -2,6 +2,8 @@
    Only the standard directives of ExtrOcamlBasic / ExtrOcamlZBigInt are used.
    Compiled with cwd = /verif/ocaml/c19 so that model.ml lands there. *)
 From Coq Require Import Extraction ExtrOcamlBasic ExtrOcamlZBigInt.
-Require Import V.base.Bytes V.gen.Hagrid V.model.Transcript V.model.H2c.
+Require Import V.base.Bytes V.gen.Hagrid V.model.Transcript V.model.H2c V.model.H2cMap.
 Extraction Blacklist List String Nat.
-Extraction "model.ml" crun new_transcript expand_message_xmd expand_message_xof hash_to_field_from_uniform.
+Extraction "model.ml" crun new_transcript expand_message_xmd expand_message_xof hash_to_field_from_uniform
+  hash_to_field ws_h2f ws_map ws_to_affine ws_hash_to_curve ws_encode_to_curve ws_on_curve ws_in_subgroup
+  k256_suite p256_suite bls12381g1_suite.
